@@ -24,6 +24,11 @@ class Current(pd.Series):
         ] = None,
     ):
 
+        # An empty collection of loads (dict, list, Series, ...) is the empty Current. Like
+        # Current(None) it must be a float Series: pd.Series({}) has dtype object, and
+        # every Current derived from it, and then the constraint matrix, would be object.
+        if loads is not None and not isinstance(loads, str) and len(loads) == 0:
+            loads = None
         # Backwards compatibility with previous Current specification methods
         if isinstance(loads, dict):
             super().__init__(loads)
